@@ -56,7 +56,7 @@ MANIFEST = {
     "note": ("Trusted: Lean kernel + standard axioms; XML text<->tree (ElementTree/expat, escaping), aiohttp routing and "
              "request plumbing, voluptuous, Python int()/float()/datetime are outside the model (sampled by the "
              "correspondence runs; float/date/time codecs enter the model as harness-supplied facts and a round-trip "
-             "hypothesis). Icons, allowedValueRange/step, empty allowed values and ranges / allowed lists on date/time types are not generated."),
+             "hypothesis). Icons, allowedValueRange/step and ranges / allowed lists on date/time types are not generated."),
     "technique": "Lean 4 proof (structural induction over definitions, argument lists and request trees) + generated table + model/implementation correspondence",
 }
 RULE = ("generated server definitions (1..3 services over a root and up to 2 embedded devices, 0..6 variables of all 26 "
@@ -71,7 +71,7 @@ ASSUMPTIONS = [
     "names (variables, actions, arguments) are XML names without whitespace; service types contain no '#' or '\"'; names are unique per service (Python dict keys)",
     "float, date and time codecs are not modelled: coerce_python on the texts that occur is supplied to the model by the harness (fact lines); their round trip is a hypothesis of call_roundtrip",
     "typed values are of the mapped Python type (a bool given for an integer argument is generated and is the integer 1/0; no datetime for date); floats are finite, datetimes/times have whole seconds",
-    "allowed lists hold non-empty texts; bounds are non-empty and parse; date/time typed variables carry defaults but no range / allowed list",
+    "allowed lists of non-string types hold non-empty texts (string types may allow the empty string); bounds are non-empty and parse; date/time typed variables carry defaults but no range / allowed list",
     "handlers keep their contract: results are out-arguments with values valid for the related variable, or UpnpActionError",
     "device icons, allowedValueRange step and max_rate are not part of the compared model",
 ]
@@ -792,7 +792,9 @@ def g_var(rng, name: str) -> Dict[str, Any]:
             v["default"] = g_float_text(rng, rng.choice(pool))
     elif dtype in STR_TYPES:
         if c < 4:
-            v["allowed"] = [x for x in (g_string(rng) or "v" for _ in range(rng.randrange(1, 5)))]
+            # the empty string may be allowed (served as <allowedValue/>, read back as "" for string types)
+            v["allowed"] = [x for x in ((g_string(rng) if rng.random() < 0.9 else "") or rng.choice(["v", "", "v"])
+                                        for _ in range(rng.randrange(1, 5)))]
         if rng.random() < 0.4:
             v["default"] = rng.choice(v["allowed"]) if "allowed" in v else g_string(rng)
     elif dtype == "boolean":
